@@ -123,6 +123,7 @@ def gen_multi_unit(sc, sidecar_path, repo):
     except (AnchorLost, LexError) as e:
         raise UnitError('anchor', str(e))
     observers = sc['observer']
+    sk.mut_on_read = set(sc.get('mut_on_read', []))
     captures = dict(sc.get('captures', {}))
     cap_pos = {}
     if sc.get('captures_from_fn'):
